@@ -732,4 +732,188 @@ example : journalText 468 = lit "wpull-journal-version:1\noffset:468\n" := by de
 example : startupRefuses (lit "site[1]") [lit "site[1]-00003.warc.gz-wpullinc"] = true := by decide
 example : startupRefuses (lit "site") [lit "site.warc.gz", lit "other.warc-wpullinc"] = false := by decide
 
+
+/-! ## A whole recorder life over a directory (constructor, roll-over, `close()` with the `-meta` archive)
+
+Every append is `write_record` aimed at ONE archive of the directory and at the journal next to it:
+the theorems above hold per archive, all other files are untouched. -/
+
+theorem journalOf_ne (a : Str) : journalOf a ≠ a := by
+  intro h
+  have := congrArg List.length h
+  simp [journalOf, journalSuffix, lit] at this
+
+theorem appendTo_archive (m : Dir) (a : Str) (s : Sched) :
+    (appendTo m a s).dir a = (writeRecord ⟨m a, m (journalOf a)⟩ s).fs.archive := by
+  have h : a ≠ journalOf a := fun h => journalOf_ne a h.symm
+  simp [appendTo, Dir.set, h]
+
+theorem appendTo_journal (m : Dir) (a : Str) (s : Sched) :
+    (appendTo m a s).dir (journalOf a) = (writeRecord ⟨m a, m (journalOf a)⟩ s).fs.journal := by
+  simp [appendTo, Dir.set]
+
+/-- an append leaves every file other than its archive and that archive's journal alone -/
+theorem appendTo_frame (m : Dir) (a : Str) (s : Sched) (x : Str) (h1 : x ≠ a) (h2 : x ≠ journalOf a) :
+    (appendTo m a s).dir x = m x := by
+  simp [appendTo, Dir.set, h1, h2]
+
+def Prim.onJournal : Prim → Bool
+  | .jopen | .jwrite _ | .jclose | .junlink | .unlink => true
+  | _ => false
+
+/-- **The journal sits next to the archive it guards**, for all three kinds of archive name
+(`<prefix>.warc[.gz]`, `<prefix>-NNNNN.warc[.gz]`, `<prefix>-meta.warc[.gz]`: `seq` is arbitrary):
+in an append to `warcName p seq c`, under every schedule, every journal primitive (create, write, close,
+remove) acts on `warcName p seq c ++ "-wpullinc"` and every other primitive on the archive itself. -/
+theorem journal_next_to_archive (m : Dir) (p seq : Str) (c : Bool) (s : Sched) :
+    ∀ e ∈ (appendTo m (warcName p seq c) s).tr,
+      (e.2.1.onJournal = true → e.1 = journalName p seq c ∧ e.1 = warcName p seq c ++ lit "-wpullinc") ∧
+      (e.2.1.onJournal = false → e.1 = warcName p seq c) := by
+  intro e he
+  simp only [appendTo, List.mem_map] at he
+  obtain ⟨x, _, rfl⟩ := he
+  cases hx : x.1 <;> simp [fileOf, Prim.onJournal, journalOf, journalName, journalSuffix]
+
+/-- crash_recoverable per archive of a directory: killed inside an append aimed at `a` (any schedule),
+`a` is valid as it is, or ITS OWN journal `a ++ "-wpullinc"` decodes to `a`'s pre-append length and `a`
+cut there is the old `a`; every other file is what it was. -/
+theorem life_append_crash_recoverable (V : Bytes → Prop) (m : Dir) (a : Str) (s : Sched)
+    (hdied : (appendTo m a s).st = .died) (hV0 : V ((m a).getD [])) :
+    (V (((appendTo m a s).dir a).getD []) ∨
+      ∃ j, (appendTo m a s).dir (journalOf a) = some j ∧ journalOffset? j = some ((m a).getD []).length ∧
+        (((appendTo m a s).dir a).getD []).take ((m a).getD []).length = (m a).getD [] ∧
+        V ((((appendTo m a s).dir a).getD []).take ((m a).getD []).length)) ∧
+    ∀ x, x ≠ a → x ≠ journalOf a → (appendTo m a s).dir x = m x := by
+  refine ⟨?_, fun x h1 h2 => appendTo_frame m a s x h1 h2⟩
+  have hst : (writeRecord ⟨m a, m (journalOf a)⟩ s).st = some .died := by
+    have : (writeRecord ⟨m a, m (journalOf a)⟩ s).status = .died := hdied
+    unfold Ph.status at this
+    cases hq : (writeRecord ⟨m a, m (journalOf a)⟩ s).st with
+    | none => simp [hq] at this
+    | some q => simp [hq] at this; rw [this]
+  have := crash_recoverable V ⟨m a, m (journalOf a)⟩ s hst hV0
+  rw [appendTo_archive, appendTo_journal]
+  exact this
+
+theorem truncateFile_frame (m : Dir) (a : Str) (o1 o2 : Out) (x : Str) (h : x ≠ a) :
+    (truncateFile m a o1 o2).dir x = m x := by
+  unfold truncateFile
+  split
+  · rfl
+  · rfl
+  · split <;> simp [Dir.set, h]
+
+/-- **Non-appending start**: `_start_new_warc_file` of a run without `--warc-append` first empties
+whatever an earlier run left under the name, THEN appends the warcinfo record.  Once the truncation went
+through, the step IS an append to the EMPTY file: the "bytes before the attempt" of that first append are
+the empty file, not the left-over contents. -/
+theorem nonappending_start_is_append_to_empty (m : Dir) (st : Step) (hk : st.kind = .startTrunc)
+    (h1 : st.topen = .ok) (h2 : st.tclose = .ok) :
+    (runStep m st).dir = (appendTo (m.set st.target (some [])) st.target st.sched).dir ∧
+    (runStep m st).st = (appendTo (m.set st.target (some [])) st.target st.sched).st ∧
+    (runStep m st).tr = [(st.target, .topen, .ok), (st.target, .tclose, .ok)] ++
+      (appendTo (m.set st.target (some [])) st.target st.sched).tr := by
+  simp [runStep, hk, truncateFile, h1, h2]
+
+/-- … so after an OSError in that first append (roll-back primitives and removals not failing, no journal
+of that archive before) the archive is EMPTY and has no journal, whatever was left over before … -/
+theorem nonappending_start_fault_restores_empty (m : Dir) (st : Step) (hk : st.kind = .startTrunc)
+    (h1 : st.topen = .ok) (h2 : st.tclose = .ok) (hj : m (journalOf st.target) = none)
+    (hraised : (runStep m st).st = .raised)
+    (ho : st.sched.ropen.isFail = false) (ht : st.sched.rtrunc.isFail = false)
+    (hu : st.sched.unlink.isFail = false) (hju : st.sched.junlink.isFail = false) :
+    ((runStep m st).dir st.target).getD [] = [] ∧ (runStep m st).dir (journalOf st.target) = none := by
+  obtain ⟨hd, hs, _⟩ := nonappending_start_is_append_to_empty m st hk h1 h2
+  rw [hd, appendTo_archive, appendTo_journal]
+  rw [hs] at hraised
+  have hne : journalOf st.target ≠ st.target := journalOf_ne _
+  have hj' : (m.set st.target (some [])) (journalOf st.target) = none := by simp [Dir.set, hne, hj]
+  have ha' : (m.set st.target (some [])) st.target = some [] := by simp [Dir.set]
+  have := fault_restores ⟨(m.set st.target (some [])) st.target, (m.set st.target (some [])) (journalOf st.target)⟩
+    st.sched hj' hraised ho ht hu hju
+  simpa [FS.bytes, ha'] using this
+
+/-- … and after a kill anywhere in a non-appending start (during the truncation or during the first
+append, any schedule): the archive is still the left-over file, or it is empty, or its own journal holds
+the journal text of length 0 (cutting to 0 gives the empty archive). -/
+theorem nonappending_start_crash (m : Dir) (st : Step) (hk : st.kind = .startTrunc)
+    (hdied : (runStep m st).st = .died) :
+    (runStep m st).dir st.target = m st.target ∨ (runStep m st).dir st.target = some [] ∨
+    (runStep m st).dir (journalOf st.target) = some (journalText 0) := by
+  cases h1 : st.topen with
+  | fail k => simp [runStep, hk, truncateFile, h1] at hdied
+  | die k => left; simp [runStep, hk, truncateFile, h1]
+  | ok =>
+    cases h2 : st.tclose with
+    | fail k => simp [runStep, hk, truncateFile, h1, h2] at hdied
+    | die k => right; left; simp [runStep, hk, truncateFile, h1, h2, Dir.set]
+    | ok =>
+      obtain ⟨hd, hs, _⟩ := nonappending_start_is_append_to_empty m st hk h1 h2
+      rw [hd, appendTo_archive, appendTo_journal]
+      rw [hs] at hdied
+      have ha' : (m.set st.target (some [])) st.target = some [] := by simp [Dir.set]
+      have hst : (writeRecord ⟨(m.set st.target (some [])) st.target,
+          (m.set st.target (some [])) (journalOf st.target)⟩ st.sched).st = some .died := by
+        have : (writeRecord ⟨(m.set st.target (some [])) st.target,
+          (m.set st.target (some [])) (journalOf st.target)⟩ st.sched).status = .died := hdied
+        unfold Ph.status at this
+        cases hq : (writeRecord ⟨(m.set st.target (some [])) st.target,
+          (m.set st.target (some [])) (journalOf st.target)⟩ st.sched).st with
+        | none => simp [hq] at this
+        | some q => simp [hq] at this; rw [this]
+      by_cases hchg : (writeRecord ⟨(m.set st.target (some [])) st.target,
+          (m.set st.target (some [])) (journalOf st.target)⟩ st.sched).fs.archive = some []
+      · right; left; exact hchg
+      · right; right
+        have := journal_before_archive_open _ st.sched hst (by rw [ha'] at *; exact hchg)
+        simpa [FS.bytes, ha'] using this
+
+theorem runStep_frame (m : Dir) (st : Step) (x : Str) (h1 : x ≠ st.target) (h2 : x ≠ journalOf st.target) :
+    (runStep m st).dir x = m x := by
+  unfold runStep
+  cases st.kind with
+  | startTrunc =>
+    simp only
+    split
+    · simp only; rw [appendTo_frame _ _ _ _ h1 h2, truncateFile_frame _ _ _ _ _ h1]
+    · exact truncateFile_frame _ _ _ _ _ h1
+  | startKeep => exact appendTo_frame _ _ _ _ h1 h2
+  | append => exact appendTo_frame _ _ _ _ h1 h2
+
+/-- over a whole life (any steps, any schedules): a file that is neither the archive a step is aimed at
+nor that archive's journal is never touched — in particular no append to one archive ever creates, alters
+or removes the journal (or the bytes) of ANOTHER archive. -/
+theorem life_frame (steps : List Step) (m : Dir) (x : Str)
+    (h : ∀ st ∈ steps, x ≠ st.target ∧ x ≠ journalOf st.target) : (runLife m steps).dir x = m x := by
+  induction steps generalizing m with
+  | nil => rfl
+  | cons st rest ih =>
+    have hst := h st (by simp)
+    unfold runLife
+    simp only
+    split
+    · simp only
+      rw [ih _ (fun s hs => h s (by simp [hs])), runStep_frame _ _ _ hst.1 hst.2]
+    · exact runStep_frame _ _ _ hst.1 hst.2
+
+/-- a life over a directory that holds the journal of ANY archive of the prefix (plain, numbered, -meta;
+gzip or not) ends in `__init__` with OSError and touches nothing -/
+theorem life_refuses_over_stale_journal (p seq : Str) (c : Bool) (names : List Str) (m : Dir) (steps : List Step)
+    (hn : journalName p seq c ∈ names) (hm : (m (journalName p seq c)).isSome = true) :
+    startLife p names m steps = ⟨m, .raised, []⟩ := by
+  unfold startLife
+  rw [if_pos]
+  exact startup_refuses p seq c _ (by simp [List.mem_filter, hn, hm])
+
+-- non-vacuity
+example : (runStep (Dir.ofList [(lit "w.warc", some [7, 7, 7])])
+      { kind := .startTrunc, target := lit "w.warc", sched := { awrites := [([1, 2], .fail 1)] } }).st = .raised ∧
+    (runStep (Dir.ofList [(lit "w.warc", some [7, 7, 7])])
+      { kind := .startTrunc, target := lit "w.warc", sched := { awrites := [([1, 2], .fail 1)] } }).dir (lit "w.warc")
+      = some [] := by decide
+example : (runStep (Dir.ofList [(lit "w-meta.warc", some [7])])
+      { kind := .append, target := lit "w-meta.warc", sched := { awrites := [([1, 2], .die 1)] } }).dir
+        (lit "w-meta.warc-wpullinc") = some (journalText 1) := by decide
+example : journalOf (warcName (lit "w") (lit "-meta") true) = lit "w-meta.warc.gz-wpullinc" := by decide
+
 end Wpull.WarcWrite
